@@ -3,4 +3,7 @@ import Beeb.Props.C12
 #print axioms Beeb.Props.C12.C12_extract_unused_confined
 #print axioms Beeb.Props.C12.C12_dest
 #print axioms Beeb.Props.C12.C12_no_create
+#print axioms Beeb.Props.C12.C12_extract_files_spares_images
+#print axioms Beeb.Props.C12.C12_extract_unused_spares_images
+#print axioms Beeb.Props.C12.C12_run_spares_images
 #print axioms Beeb.Props.C12.C12_run_confined
